@@ -1332,6 +1332,121 @@ theorem lossScan_spec (b size : Nat) (hb : b ≤ size) (all rest : List Run) :
         simp [lossScan, hob, hob2, lastCol_nil]
         rfl
 
+/-! ### the common tail of `may_loss` -/
+
+theorem mayLossTail_unfold (m : BufMap) (runs1 : List Run) (ds : Nat) (nis : Bool) (de0 : Nat) (pre0 : Colour)
+    (a b fuel : Nat) :
+    mayLoss.mayLossTail m runs1 ds nis de0 pre0 a b fuel =
+      (lossScan b m.size runs1 (runs1.drop de0) de0 pre0 >>= fun r =>
+        (match r.2.2.2 with
+          | some j => mayLostFrom fuel runs1 m.size j b
+          | none => pure runs1) >>= fun runs2 =>
+        splice runs2 ds r.1 (if nis then some (a, Colour.lost) else none)
+          (if r.2.2.1 then some (b, r.2.1) else none) >>= fun runs3 =>
+        pure { m with runs := runs3 }) := by
+  unfold mayLoss.mayLossTail
+  cases lossScan b m.size runs1 (runs1.drop de0) de0 pre0 with
+  | error e => rfl
+  | ok r =>
+    obtain ⟨de, pre, nie, recAt⟩ := r
+    cases recAt <;> rfl
+
+theorem splice_tail (A B C : List Run) (ds de : Nat) (nis nie : Bool) (r1 r2 : Run) (hds : ds = A.length)
+    (hde : de = A.length + B.length) :
+    splice (A ++ B ++ C) ds de (if nis then some r1 else none) (if nie then some r2 else none)
+      = .ok (A ++ (if nis then [r1] else []) ++ ((if nie then [r2] else []) ++ C)) := by
+  rw [loss_splice_decomp A B C ds de _ _ hds hde]
+  cases nis <;> cases nie <;> simp
+
+theorem mayLossTail_spec (m : BufMap) (A B0 T : List Run) (nis : Bool) (pre0 : Colour) (a b fuel : Nat)
+    (hb : b ≤ m.size) (hfuel : T.length < fuel) (hsT : Sorted T) (hszT : ∀ r ∈ T, r.1 < m.size)
+    (hnp : ∀ r ∈ T, r.1 < b → r.2 ≠ Colour.pending) :
+    ∃ L R C K nie, T = L ++ R ∧ (∀ r ∈ L, r.1 < b ∧ (r.2 = Colour.flighting ∨ r.2 = Colour.lost)) ∧
+      (∀ r ∈ K, r.2 = Colour.lost) ∧
+      mayLoss.mayLossTail m (A ++ B0 ++ T) A.length nis (A.length + B0.length) pre0 a b fuel
+        = .ok { m with runs := A ++ (if nis then [(a, Colour.lost)] else []) ++
+            ((if nie then [(b, lastCol L pre0)] else []) ++ C) } ∧
+      ((R = [] ∧ C = [] ∧ K = [] ∧ nie = (decide (b < m.size) && lastCol L pre0 == Colour.flighting)) ∨
+       (∃ o R' R'', R = (o, Colour.recved) :: R' ∧ C = (o, Colour.recved) :: R'' ∧ K = [] ∧ o < b ∧ nie = false ∧
+          Sorted R'' ∧ (∀ r ∈ R'', r.1 < m.size) ∧ (∀ lb, (∀ r ∈ R', lb < r.1) → ∀ r ∈ R'', lb < r.1) ∧
+          (∀ p x, x < m.size → colourAt R'' p x
+            = if x < b then colourAt (R'.map lostRun) p x else colourAt R' p x)) ∨
+       (∃ c R', R = (b, c) :: R' ∧ R = K ++ C ∧ nie = false) ∨
+       (∃ o c R', R = (o, c) :: R' ∧ b < o ∧ C = R ∧ K = [] ∧ nie = (lastCol L pre0 == Colour.flighting))) := by
+  obtain ⟨L, R, hLR, hL, hscan⟩ := lossScan_spec b m.size hb (A ++ B0 ++ T) T (A.length + B0.length) pre0 hnp
+  have hdrop : (A ++ B0 ++ T).drop (A.length + B0.length) = T := by
+    have := drop_prefix (A ++ B0) T 0
+    simp
+  subst hLR
+  rw [loss_sorted_append] at hsT
+  obtain ⟨hsL, hsR, hLltR⟩ := hsT
+  rcases hscan with ⟨hR, hscan⟩ | ⟨o, R', hR, hob, hscan⟩ | ⟨c, R', hR, hscan⟩ | ⟨o, c, R', hR, hob, hscan⟩
+  · subst hR
+    refine ⟨L, [], [], [], _, rfl, hL, by simp, ?_, Or.inl ⟨rfl, rfl, rfl, rfl⟩⟩
+    rw [mayLossTail_unfold, hdrop, hscan]
+    have e1 : A ++ B0 ++ (L ++ []) = A ++ (B0 ++ L) ++ [] := by simp
+    have hsp := splice_tail A (B0 ++ L) [] A.length (A.length + B0.length + L.length) nis
+      (decide (b < m.size) && lastCol L pre0 == Colour.flighting) (a, Colour.lost) (b, lastCol L pre0) rfl
+      (by simp; omega)
+    rw [← e1] at hsp
+    show (splice _ _ _ _ _ >>= fun runs3 => pure { m with runs := runs3 }) = _
+    rw [hsp]
+    rfl
+  · subst hR
+    have hsR' := (loss_sorted_cons.mp hsR).2
+    have e1 : A ++ B0 ++ (L ++ (o, Colour.recved) :: R') = (A ++ B0 ++ L ++ [(o, Colour.recved)]) ++ R' := by simp
+    have e2 : (A ++ B0 ++ L ++ [(o, Colour.recved)]).length = A.length + B0.length + L.length + 1 := by
+      simp; omega
+    obtain ⟨R'', hrec, hsR'', hsz'', hlb'', hcol''⟩ := mayLostFrom_spec m.size b hb fuel
+      (A ++ B0 ++ L ++ [(o, Colour.recved)]) R' (by simp at hfuel; omega) hsR'
+      (fun r hr => hszT r (by simp [hr])) (fun r hr => hnp r (by simp [hr]))
+    rw [e2, ← e1] at hrec
+    refine ⟨L, _, (o, Colour.recved) :: R'', [], false, rfl, hL, by simp, ?_,
+      Or.inr (Or.inl ⟨o, R', R'', rfl, rfl, rfl, hob, rfl, hsR'', hsz'', hlb'', hcol''⟩)⟩
+    rw [mayLossTail_unfold, hdrop, hscan]
+    have e3 : (A ++ B0 ++ L ++ [(o, Colour.recved)]) ++ R'' = A ++ (B0 ++ L) ++ ((o, Colour.recved) :: R'') := by
+      simp
+    have hsp := splice_tail A (B0 ++ L) ((o, Colour.recved) :: R'') A.length (A.length + B0.length + L.length) nis
+      false (a, Colour.lost) (b, lastCol L pre0) rfl (by simp; omega)
+    rw [← e3] at hsp
+    show (mayLostFrom fuel _ m.size _ b >>= fun runs2 => splice runs2 _ _ _ _ >>= fun runs3 =>
+      pure { m with runs := runs3 }) = _
+    rw [hrec]
+    show (splice _ _ _ _ _ >>= fun runs3 => pure { m with runs := runs3 }) = _
+    rw [hsp]
+    rfl
+  · subst hR
+    obtain ⟨k, hk1, hk2, hk3⟩ := loss_skipSame_spec Colour.lost ((b, c) :: R')
+      (A.length + B0.length + L.length) hsR
+    refine ⟨L, _, ((b, c) :: R').drop k, ((b, c) :: R').take k, false, rfl, hL, hk3, ?_,
+      Or.inr (Or.inr (Or.inl ⟨c, R', rfl, (List.take_append_drop _ _).symm, rfl⟩))⟩
+    rw [mayLossTail_unfold, hdrop, hscan]
+    have hd2 : (A ++ B0 ++ (L ++ (b, c) :: R')).drop (A.length + B0.length + L.length) = (b, c) :: R' := by
+      have := drop_prefix (A ++ B0 ++ L) ((b, c) :: R') 0
+      simp [Nat.add_assoc]
+    have e1 : A ++ B0 ++ (L ++ (b, c) :: R')
+        = A ++ (B0 ++ L ++ ((b, c) :: R').take k) ++ ((b, c) :: R').drop k := by
+      simp only [List.append_assoc, List.take_append_drop]
+    have hsp := splice_tail A (B0 ++ L ++ ((b, c) :: R').take k) (((b, c) :: R').drop k) A.length
+      (sameAfterP1 (A ++ B0 ++ (L ++ (b, c) :: R')) Colour.lost (A.length + B0.length + L.length)) nis
+      false (a, Colour.lost) (b, lastCol L pre0) rfl (by
+        simp only [sameAfterP1, hd2, hk1, List.length_append, List.length_take]; omega)
+    rw [← e1] at hsp
+    show (splice _ _ _ _ _ >>= fun runs3 => pure { m with runs := runs3 }) = _
+    rw [hsp]
+    rfl
+  · subst hR
+    refine ⟨L, _, (o, c) :: R', [], _, rfl, hL, by simp, ?_,
+      Or.inr (Or.inr (Or.inr ⟨o, c, R', rfl, hob, rfl, rfl, rfl⟩))⟩
+    rw [mayLossTail_unfold, hdrop, hscan]
+    have e1 : A ++ B0 ++ (L ++ (o, c) :: R') = A ++ (B0 ++ L) ++ ((o, c) :: R') := by simp
+    have hsp := splice_tail A (B0 ++ L) ((o, c) :: R') A.length (A.length + B0.length + L.length) nis
+      (lastCol L pre0 == Colour.flighting) (a, Colour.lost) (b, lastCol L pre0) rfl (by simp; omega)
+    rw [← e1] at hsp
+    show (splice _ _ _ _ _ >>= fun runs3 => pure { m with runs := runs3 }) = _
+    rw [hsp]
+    rfl
+
 -- OPEN: `mayLoss_refines` (the top-level theorem) is not proved.  What is missing:
 --   (1) the three branches of `mayLoss` that only call `mayLostFrom` (`Ok(idx)` on a `Recved` run, `Err(0)`,
 --       `Err(idx)` after a `Recved` run) follow from `mayLostFrom_abs` + `lowerBound_spec` (hypotheses `hP1 hP2 hR`
